@@ -26,7 +26,9 @@ def scenario(w):
         L.append(f'conc_thread {ti} ' + ' / '.join(ops))
     ev = [e for e in w['locks'] if e[0] == 'lock']
     L.append('conc_sched ' + ' '.join(f"{e[1]}:{e[4]}:{e[5]}" for e in ev))
+    L.append('stats ' + cname)
     L.append('conc_run')
+    L.append('stats ' + cname)
     L.append('keys ' + cname)
     lim = rec['intended']['limit']
     if lim:
@@ -49,6 +51,13 @@ def replay(f, w):
         if blocked: return True, 'native threads driven along the witness schedule never return (deadlock): ' + blocked[0] + ' ' + info, lines
         return False, 'native threads all returned ' + info, lines
     if blocked: return False, 'native run blocked ' + info, lines
+    if f['prop'] == 'C15':
+        st = [l.split()[1:] for l in lines if l.startswith('stats ') and 'none' not in l]
+        if len(st) >= 2:
+            delta = (int(st[1][0]) + int(st[1][1])) - (int(st[0][0]) + int(st[0][1]))
+            if delta != w.get('nlookups'): return True, f"natively hits+misses grew by {delta} during {w.get('nlookups')} lookups " + info, lines
+            return False, f"natively hits+misses grew by {delta} = number of lookups " + info, lines
+        return False, 'statistics not observable ' + info, lines
     keyl = [l.split()[2:] for l in lines if l.startswith('keys ')]
     untracked = [k for k in w.get('keys', []) if k not in w.get('queue', [])]
     dev = []
